@@ -77,6 +77,9 @@ def run_workers(prop, tier, seed, bins, subs_env):
         e = env.worker_env(extra=subs_env.get(k))
         e["VERIF_BREADCRUMB"] = os.path.join(tmp, f"w{k}.crumb")
         e["VERIF_DEADLINE"] = repr(t_launch + 0.8 * budget)
+        if os.environ.get("VERIF_FAIL_FAST"):
+            # sensitivity sweeps: every worker winds down as soon as one of them has saved a violation
+            e["VERIF_STOP_FILE"] = os.path.join(tmp, "FOUND")
         log = open(os.path.join(tmp, f"w{k}.log"), "w")
         procs.append((subprocess.Popen(cmd, cwd=HERE, env=e, stdout=log, stderr=subprocess.STDOUT), out, log, k))
     results = []
